@@ -132,11 +132,13 @@ class HedValidator:
             list: Validation issues. Each issue is a dictionary.
         """
         validation_issues = []
-        for match in self.pattern_doubleslash.finditer(original_tag.org_tag):
+        # The library namespace is not a node name: the pattern applies to the text that follows it.
+        ns_len = len(original_tag.schema_namespace)
+        for match in self.pattern_doubleslash.finditer(original_tag.org_tag[ns_len:]):
             validation_issues += error_reporter.ErrorHandler.format_error(ValidationErrors.NODE_NAME_EMPTY,
                                                                           tag=original_tag,
-                                                                          index_in_tag=match.start(),
-                                                                          index_in_tag_end=match.end())
+                                                                          index_in_tag=match.start() + ns_len,
+                                                                          index_in_tag_end=match.end() + ns_len)
 
         return validation_issues
 
